@@ -31,7 +31,7 @@ PID = "C02"
 def decode_variant(mod: str, v: str) -> str:
     x = json.loads(v)
     if mod == "c":
-        return "c[%d,%d]" % (x["iface"], x["err"])
+        return "c-" if x["iface"] == 9 else "c[%d,%d]" % (x["iface"], x["err"])
     return x
 
 
@@ -499,7 +499,10 @@ def main(argv: list[str]) -> int:
     rm = tlc("MC_Incremental", "Mut_Incremental_NoIndirect.cfg", coverage=False)
     if rm.violated != "FreshIsRight":
         raise MachineryError("specification mutant NoIndirect not rejected: %s %s" % (rm.violated, rm.error))
-    cov["spec_mutants_rejected"] = {"NoIndirect": rm.violated}
+    rm2 = tlc("MC_Incremental", "Mut_Incremental_NoDepList.cfg", coverage=False)
+    if rm2.violated != "FreshIsRight":
+        raise MachineryError("specification mutant NoDepList not rejected: %s %s" % (rm2.violated, rm2.error))
+    cov["spec_mutants_rejected"] = {"NoIndirect": rm.violated, "NoDepList": rm2.violated}
     # ---- 2. replay of every emitted history
     g = tlc("MC_Incremental", "Gen_Incremental.cfg", workers=1, coverage=False, timeout=1200)
     if not g.ok:
@@ -512,8 +515,8 @@ def main(argv: list[str]) -> int:
     n_emitted = len(hists)
     work = []
     if tier == "quick":
-        # a fixed third of the emitted histories (every third one in the sorted order), rotating configurations
-        hists = hists[::3]
+        # a fixed quarter of the emitted histories (every fourth one in the sorted order), rotating configurations
+        hists = hists[::4]
     for i, hst in enumerate(hists):
         if tier == "quick":
             work.append((hst, W.CONFIGS[i % 4]))
